@@ -55,7 +55,7 @@ def load_known(pid):
 
 
 def finish(pid, tier, obs, floors, t0, extra=None, explanation="", assumptions=None,
-           info=None):
+           info=None, residue=None):
     """Write evidence, print the report, return the exit code."""
     seed = int(os.environ.get("VERIF_SEED", "0") or 0)
     counts = {}
@@ -67,8 +67,19 @@ def finish(pid, tier, obs, floors, t0, extra=None, explanation="", assumptions=N
     known_keys = {(f["rule"], f["construct"], f.get("detail", "")): f for f in findings}
     failures = [o for o in obs if not o.ok]
     unlisted, listed = [], []
+    withheld = []
     for o in failures:
-        (listed if o.key() in known_keys else unlisted).append(o)
+        if o.key() in known_keys:
+            listed.append(o)
+            continue
+        why = next((w for fnq, w in (residue or {}).items() if o.construct == fnq or o.construct.startswith(fnq + "[")
+                    or o.construct.startswith(fnq + ".") or o.construct.startswith(fnq + "->")), None)
+        # formula obligations (tiers F / M) compare values computed through the expander, for which the names of inlined
+        # locals are immaterial: they stand; only shape-based (structural) obligations are withheld
+        if why and getattr(o, "tier", "S") not in ("F", "M") and os.environ.get("SA_WITHHOLD", "1") != "0":
+            withheld.append((o, why))
+        else:
+            unlisted.append(o)
 
     for line in (info or []):
         print("INFO " + line)
@@ -105,6 +116,7 @@ def finish(pid, tier, obs, floors, t0, extra=None, explanation="", assumptions=N
         "instance_floors": floors,
         "known_findings_printed": len(listed),
         "violations_unlisted": len(unlisted),
+        "verdicts_withheld": len(withheld),
     }
     if extra:
         cov.update(extra)
@@ -121,6 +133,11 @@ def finish(pid, tier, obs, floors, t0, extra=None, explanation="", assumptions=N
 
     print(f"[{pid}] tier={tier} obligations={len(obs)} discharged={len(obs)-len(failures)} "
           f"known={len(listed)} unlisted={len(unlisted)} rules={counts}")
+    for o, why in withheld:
+        print(f"ANALYSIS-ERROR property={pid} verdict withheld: {o.rule} at {o.construct} could not be decided - the function was "
+              f"restructured beyond what the normaliser undoes ({why})")
+    if withheld and not unlisted:
+        return 2
     if floor_errors:
         for e in floor_errors:
             print(f"ANALYSIS-ERROR property={pid} instance floor not met: {e}")
